@@ -44,8 +44,20 @@ JudgeOut(e) ==
          \cup LET bad == {f \in ParseOut(e.fmt, e.bytes) : WrongIn(f, e.in)} IN
               IF bad = {} THEN {} ELSE {<<"ValuePlacement", ToJson([paths |-> {f[1] : f \in bad}])>>}
 
+\* C06, second half: [ev |-> "Rebuild", fmt, orig (a device response), bytes (what the library built from
+\* what it parsed out of orig)]: a conformant reader must find the same values in both; for a canonical
+\* response (no bit set outside its fields) that is byte equality
+JudgeRebuild(e) ==
+    IF e.fmt \notin Formats THEN {<<"UnknownFormat", e.fmt>>}
+    ELSE IF ~Okay(e.fmt, e.orig) THEN {<<"Unjudged", "not well-formed">>}
+    ELSE IF ~Okay(e.fmt, e.bytes) THEN {<<"HonestLengths", "">>}
+    ELSE LET A == Parse(e.fmt, e.orig)  B == Parse(e.fmt, e.bytes)
+             diff == {f[1] : f \in (A \ B) \cup (B \ A)} IN
+         IF diff = {} THEN {} ELSE {<<"RebuildKeepsValues", ToJson([paths |-> diff])>>}
+
 Judge(e) ==
-    IF e.ev = "Marshal" THEN JudgeOut(e)
+    IF e.ev = "Rebuild" THEN JudgeRebuild(e)
+    ELSE IF e.ev = "Marshal" THEN JudgeOut(e)
     ELSE IF e.fmt = "ReadCd" THEN
          (IF ~Ok_ReadCd(e.bytes, e.par) THEN {<<"Unjudged", "layout not covered">>}
           ELSE IF e.exc # "" THEN {<<"DecodesWithoutError", e.exc>>}
